@@ -1,8 +1,12 @@
 package harness
 
 import (
+	"context"
 	"fmt"
 	"testing"
+	"time"
+
+	"github.com/platinummonkey/go-concurrency-limits/patterns/pool"
 )
 
 type wOracle func(rep *Report, w *WSUT, op wOp, before []int64, granted []int64, fail func(sig, d string))
@@ -227,6 +231,11 @@ func TestC11(t *testing.T) {
 			if got := string(w.Queue.VerifOrdering()); got != want {
 				fail("constructor-ordering", fmt.Sprintf("constructor %s installs ordering %q, its name/documentation says %q", w.Cfg.Via, got, want))
 			}
+		}
+		if op.Op == 2 && len(granted) == 0 && before[1] > 0 && before[0]-1 < strategyLimitOr(w) {
+			// the capacity a completion frees goes to the head of the backlog first, whatever the completion's outcome:
+			// otherwise the next arrival overtakes everybody who is waiting
+			fail("release-served-nobody", fmt.Sprintf("a completion (outcome %d) freed capacity (%d/%d) with %d callers in the backlog and none was served", op.Args[1], before[0]-1, strategyLimitOr(w), before[1]))
 		}
 		if op.Op != 2 || len(granted) == 0 {
 			return
@@ -475,6 +484,47 @@ func TestC19(t *testing.T) {
 		}
 		if ci < 2 {
 			rep.Sample(map[string]interface{}{"cfg": cfg, "callers": total, "ops": len(hist)})
+		}
+	}
+}
+
+// ---------------- C19 (sustained traffic): a pool keeps serving across sample-window roll-overs ----------------
+// Real time (a frozen limiter is a goroutine stuck on a mutex, which a bubble cannot wait out): one caller at a time takes a slot,
+// holds it briefly and completes it successfully, often enough for the limiter underneath to close several sample windows.
+func TestC19Sustained(t *testing.T) {
+	rep := NewReport("C19sustained")
+	defer rep.Write(t)
+	for _, po := range []pool.Ordering{pool.OrderingFIFO, pool.OrderingLIFO, pool.OrderingRandom} {
+		p, err := pool.NewFixedPool("p", po, 2, 10, time.Millisecond, time.Millisecond, 0, 5, time.Second, nil, nil)
+		if err != nil {
+			t.Fatal(err)
+		}
+		frozen := ""
+		for i := 0; i < 80 && frozen == ""; i++ {
+			step := make(chan string, 1)
+			go func() {
+				ls, ok := p.Acquire(context.Background())
+				if !ok {
+					step <- "refused"
+					return
+				}
+				time.Sleep(100 * time.Microsecond)
+				ls.OnSuccess()
+				step <- "ok"
+			}()
+			select {
+			case r := <-step:
+				if r != "ok" {
+					frozen = fmt.Sprintf("cycle %d: an idle pool of 2 refused the only caller", i)
+				}
+			case <-time.After(3 * time.Second):
+				frozen = fmt.Sprintf("cycle %d: acquire/complete on an idle pool of 2 did not return within 3 s", i)
+			}
+			rep.Evaluations++
+		}
+		rep.Distinct("sustained", fmt.Sprint(po))
+		if frozen != "" {
+			rep.Violate("pool:frozen", frozen+fmt.Sprintf(" (ordering %v, window size 10, window 1 ms)", po), map[string]interface{}{"component": "pool", "ordering": fmt.Sprint(po)})
 		}
 	}
 }
